@@ -1591,8 +1591,12 @@ _vbi_cache_put_page		(vbi_cache *		ca,
 
  replace:
 	if (likely (memory_available == memory_needed
-		    && 1 == death_count)) {
-		/* Usually we can replace a single page of same size. */
+		    && 1 == death_count
+		    && (long) cache_page_size (death_row[0])
+		       == memory_needed)) {
+		/* Usually we can replace a single page of same size.
+		   (memory_available == memory_needed alone does not imply
+		   that: the cache may have had free memory before.) */
 
 		new_cp = death_row[0];
 
